@@ -308,7 +308,14 @@ fn explore_docs_json(em: &mut Em, p: &Pair, gid: &str, rng: &mut Rng, ndocs: usi
     pa.set_language(&p.lang_a).unwrap();
     pb.set_language(&p.lang_b).unwrap();
     for r in 0..ndocs {
-        let toks = gg.sentence(rng, [6, 20, 60, 200, 600][r % 5]);
+        let mut toks = gg.sentence(rng, [6, 20, 60, 200, 600][r % 5]);
+        // identifiers that collide with keywords / reserved words (keyword extraction, reserved-word
+        // sets and the word token are where merged states may lex differently)
+        for t in toks.iter_mut() {
+            if t.text.chars().all(|c| c.is_ascii_lowercase() || c == '_') && !t.text.is_empty() && rng.chance(1, 8) {
+                t.text = ["if", "else", "let", "for", "while", "var", "return", "case"][rng.below(8)].to_string();
+            }
+        }
         let (mut text, _) = gg.render(&toks, rng);
         if text.len() > 30000 {
             continue;
